@@ -400,7 +400,7 @@ func runHistoryAPIOpt(h history, rec *Rec, skipClean bool) corrTrace {
 	if rec == nil {
 		rec = &Rec{}
 	}
-	var tr trackerAPI = sessiontracker.NewSessionTracker(newWriter(rec), nil)
+	var tr trackerAPI = sessiontracker.NewSessionTracker(newWriter(rec), vhLogger)
 	m := newCorrModel()
 	ct := corrTrace{H: h, Logins: map[int]string{}, LoginRaw: map[int]*auditevent.AuditEvent{}, LoginPtr: map[int]*auditevent.AuditEvent{}, Model: m}
 	// instants[i] is a clock reading taken strictly before op i and strictly
